@@ -12,14 +12,18 @@ import (
 	"encoding/json"
 	"fmt"
 	"io"
+	"math"
 	"math/rand"
+	"sort"
 	"strconv"
 	"strings"
 	"time"
+	"unicode"
 	"unicode/utf8"
 
 	"github.com/go-faster/city"
 	clc_writer "github.com/metrico/cloki-config/config/writer"
+	rservice "github.com/metrico/qryn/reader/service"
 	"github.com/metrico/qryn/writer/config"
 	wmodel "github.com/metrico/qryn/writer/model"
 	"github.com/metrico/qryn/writer/utils/unmarshal"
@@ -38,10 +42,30 @@ type Wire struct {
 	Fields  []string      `json:"fields,omitempty"`  // dd_logs: source service hostname source_type; dd_cf: the eight; es_*: target [id]; influx: measurement field
 	HasID   bool          `json:"has_id,omitempty"`  // es_doc
 	Items   []WItem       `json:"items,omitempty"`   // dd_metrics, in the order sent
-	Res     [][2]string   `json:"res,omitempty"`     // otlp resource attributes
-	Scope   [][2]string   `json:"scope,omitempty"`   // otlp scope attributes
-	Rec     [][2]string   `json:"rec,omitempty"`     // otlp record attributes
+	Res     []WAttr       `json:"res,omitempty"`     // otlp resource attributes
+	Scope   []WAttr       `json:"scope,omitempty"`   // otlp scope attributes
+	Rec     []WAttr       `json:"rec,omitempty"`     // otlp record attributes
 	Sev     string        `json:"sev,omitempty"`     // otlp severity text
+	DdTags  string        `json:"ddtags,omitempty"`  // dd_logs: the ddtags member as sent (hex)
+	Letters [][2]int64    `json:"letters,omitempty"` // dd_logs: unicode.Is(unicode.L, r) for every rune >= 128 of ddtags
+}
+
+// an OTLP attribute: key (hex) and its any-value tree
+type WAttr struct {
+	K string `json:"k"`
+	V WVal   `json:"v"`
+}
+
+// T: s string (S hex) | b bool (B) | i int (I decimal) | d double (D = IEEE bits, decimal) | y bytes (S hex) |
+// a array (A) | kv key-value list (KV) | n no value
+type WVal struct {
+	T  string  `json:"t"`
+	S  string  `json:"s,omitempty"`
+	B  bool    `json:"b,omitempty"`
+	I  string  `json:"i,omitempty"`
+	D  string  `json:"d,omitempty"`
+	A  []WVal  `json:"a,omitempty"`
+	KV []WAttr `json:"kv,omitempty"`
 }
 type WItem struct {
 	Metric string          `json:"metric,omitempty"` // hex; item is the "metric" member
@@ -64,6 +88,10 @@ type PCase struct {
 	Panic  string      `json:"panic,omitempty"`
 	HasHdr bool        `json:"has_hdr"`          // the request was also sent with a TTL header
 	FpHdr  string      `json:"fp_hdr,omitempty"` // its fingerprint then
+	Rd     [][2]string `json:"rd"`                // what the READER's decoder of stored label documents (storedLabels) makes of the document, sorted by name, hex
+	RdErr  string      `json:"rd_err,omitempty"`
+	HasLoki bool       `json:"has_loki"`          // the label list the decoder stored was also pushed as a Loki stream
+	FpLoki string      `json:"fp_loki,omitempty"` // the fingerprint Loki stored for it
 
 	hdr *pbody
 }
@@ -157,27 +185,120 @@ func genAttrKey(r *rand.Rand, i int) string {
 	return s
 }
 
-func obj(members []string) string { return "{" + strings.Join(members, ",") + "}" }
-
-// an attribute value "\x00b:true" / "\x00i:-12" stands for a bool / int value (the wire description keeps the marker)
-func attrValue(v string) *otlpCommon.AnyValue {
-	if strings.HasPrefix(v, "\x00b:") {
-		return &otlpCommon.AnyValue{Value: &otlpCommon.AnyValue_BoolValue{BoolValue: v[3:] == "true"}}
+// jsonBytes writes a JSON string literal that keeps ill-formed bytes as they are (encoding/json would replace them)
+func jsonBytes(v string) string {
+	var b strings.Builder
+	b.WriteByte('"')
+	for i := 0; i < len(v); i++ {
+		ch := v[i]
+		switch {
+		case ch == '"' || ch == '\\':
+			b.WriteByte('\\')
+			b.WriteByte(ch)
+		case ch < 0x20:
+			fmt.Fprintf(&b, "\\u%04x", ch)
+		default:
+			b.WriteByte(ch)
+		}
 	}
-	if strings.HasPrefix(v, "\x00i:") {
-		n, _ := strconv.ParseInt(v[3:], 10, 64)
-		return &otlpCommon.AnyValue{Value: &otlpCommon.AnyValue_IntValue{IntValue: n}}
-	}
-	return &otlpCommon.AnyValue{Value: &otlpCommon.AnyValue_StringValue{StringValue: v}}
+	b.WriteByte('"')
+	return b.String()
 }
 
-func kvAttrs(l [][2]string) []*otlpCommon.KeyValue {
+func obj(members []string) string { return "{" + strings.Join(members, ",") + "}" }
+
+var doubles = []float64{0, math.Copysign(0, -1), 1.5, -2.25, 0.1, 0.30000000000000004, 1e21, 1e20, 1e-7, 123456789.125, 5e-324,
+	1.7976931348623157e308, math.NaN(), math.Inf(1), math.Inf(-1), 100, 1234567.0, 3.141592653589793, 2.5e-5}
+
+func genVal(r *rand.Rand, depth int) WVal {
+	k := r.Intn(12)
+	if depth <= 0 && k >= 9 {
+		k = r.Intn(9)
+	}
+	switch k {
+	case 0, 1, 2:
+		v := genField(r)
+		if !utf8.ValidString(v) {
+			v = "v"
+		}
+		return WVal{T: "s", S: hexs(v)}
+	case 3:
+		return WVal{T: "b", B: r.Intn(2) == 0}
+	case 4:
+		return WVal{T: "i", I: []string{"0", "7", "-12", "9223372036854775807", "-9223372036854775808", "1000000"}[r.Intn(6)]}
+	case 5, 6:
+		d := doubles[r.Intn(len(doubles))]
+		if r.Intn(4) == 0 {
+			d = math.Float64frombits(r.Uint64())
+		}
+		return WVal{T: "d", D: strconv.FormatUint(math.Float64bits(d), 10)}
+	case 7:
+		n := r.Intn(6)
+		bs := make([]byte, n)
+		for i := range bs {
+			bs[i] = byte(r.Intn(256))
+		}
+		return WVal{T: "y", S: hexs(string(bs))}
+	case 8:
+		return WVal{T: "n"}
+	case 9, 10:
+		v := WVal{T: "a", A: []WVal{}}
+		n := r.Intn(4)
+		for i := 0; i < n; i++ {
+			v.A = append(v.A, genVal(r, depth-1))
+		}
+		return v
+	default:
+		v := WVal{T: "kv", KV: []WAttr{}}
+		n := r.Intn(4)
+		for i := 0; i < n; i++ {
+			key := genAttrKey(r, i%2)
+			if i > 0 && r.Intn(4) == 0 {
+				// a key that collides with an earlier one after SanitizeKey: the later value wins
+				key = strings.NewReplacer(".", "-", "_", ".").Replace(hx.UnHex(v.KV[r.Intn(len(v.KV))].K))
+			}
+			v.KV = append(v.KV, WAttr{K: hexs(key), V: genVal(r, depth-1)})
+		}
+		return v
+	}
+}
+
+func anyValue(v WVal) *otlpCommon.AnyValue {
+	switch v.T {
+	case "s":
+		return &otlpCommon.AnyValue{Value: &otlpCommon.AnyValue_StringValue{StringValue: hx.UnHex(v.S)}}
+	case "b":
+		return &otlpCommon.AnyValue{Value: &otlpCommon.AnyValue_BoolValue{BoolValue: v.B}}
+	case "i":
+		n, _ := strconv.ParseInt(v.I, 10, 64)
+		return &otlpCommon.AnyValue{Value: &otlpCommon.AnyValue_IntValue{IntValue: n}}
+	case "d":
+		bits, _ := strconv.ParseUint(v.D, 10, 64)
+		return &otlpCommon.AnyValue{Value: &otlpCommon.AnyValue_DoubleValue{DoubleValue: math.Float64frombits(bits)}}
+	case "y":
+		return &otlpCommon.AnyValue{Value: &otlpCommon.AnyValue_BytesValue{BytesValue: []byte(hx.UnHex(v.S))}}
+	case "a":
+		arr := &otlpCommon.ArrayValue{}
+		for _, it := range v.A {
+			arr.Values = append(arr.Values, anyValue(it))
+		}
+		return &otlpCommon.AnyValue{Value: &otlpCommon.AnyValue_ArrayValue{ArrayValue: arr}}
+	case "kv":
+		return &otlpCommon.AnyValue{Value: &otlpCommon.AnyValue_KvlistValue{KvlistValue: &otlpCommon.KeyValueList{Values: kvAttrs(v.KV)}}}
+	}
+	return &otlpCommon.AnyValue{}
+}
+
+func kvAttrs(l []WAttr) []*otlpCommon.KeyValue {
 	var out []*otlpCommon.KeyValue
 	for _, kv := range l {
-		out = append(out, &otlpCommon.KeyValue{Key: kv[0], Value: attrValue(kv[1])})
+		out = append(out, &otlpCommon.KeyValue{Key: hx.UnHex(kv.K), Value: anyValue(kv.V)})
 	}
 	return out
 }
+
+// pieces of a ddtags text that are not well-formed tags (none contains a comma)
+var junkTags = []string{"", "novalue", "9x:1", "a b:c", "k:v!", "x:y:z", "k:", ":v", "a:b;c", "tag:\xffz", " lead:1", "trail:1 ", "é:ü", "日本:語", "_u:1", "a\\b:c/d", "A.b-c/d:e", "ǅ:1", "٣:1", "k\u00a0:1", "x:١"}
 
 // genProto builds one case: the wire description and the request bodies (first = the described order)
 func genProto(r *rand.Rand, id int) (PCase, []pbody) {
@@ -187,26 +308,41 @@ func genProto(r *rand.Rand, id int) (PCase, []pbody) {
 	switch id % 8 {
 	case 0:
 		c.Class = "datadog_logs"
-		var tags [][2]string
-		n := r.Intn(4)
+		// the ddtags text: well-formed tags and junk, joined by commas; no piece contains a comma, so the matches of the
+		// pattern inside one piece do not depend on where the piece stands
+		var pieces []string
+		n := r.Intn(5)
 		for i := 0; i < n; i++ {
-			tags = append(tags, genTag(r, i))
+			if r.Intn(3) == 0 {
+				pieces = append(pieces, junkTags[r.Intn(len(junkTags))])
+			} else {
+				kv := genTag(r, i)
+				pieces = append(pieces, kv[0]+":"+kv[1])
+			}
 		}
 		f := []string{genField(r), genField(r), genField(r), genField(r)}
-		c.Wire = Wire{Kind: "dd_logs", Tags: hexPairs2(tags), Fields: []string{hexs(f[0]), hexs(f[1]), hexs(f[2]), hexs(f[3])}}
-		mk := func(tg [][2]string, shuffle bool) pbody {
-			var ts []string
-			for _, kv := range tg {
-				ts = append(ts, kv[0]+":"+kv[1])
+		dd := strings.Join(pieces, ",")
+		c.Wire = Wire{Kind: "dd_logs", DdTags: hexs(dd), Fields: []string{hexs(f[0]), hexs(f[1]), hexs(f[2]), hexs(f[3])}}
+		seenR := map[rune]bool{}
+		for _, rn := range dd {
+			if rn >= 128 && !seenR[rn] {
+				seenR[rn] = true
+				lv := int64(0)
+				if unicode.Is(unicode.L, rn) {
+					lv = 1
+				}
+				c.Wire.Letters = append(c.Wire.Letters, [2]int64{int64(rn), lv})
 			}
+		}
+		mk := func(ps []string, shuffle bool) pbody {
 			ms := []string{`"ddsource":` + jsonStr(f[0]), `"service":` + jsonStr(f[1]), `"hostname":` + jsonStr(f[2]), `"source_type":` + jsonStr(f[3]),
-				`"ddtags":` + jsonStr(strings.Join(ts, ",")), `"message":"m"`, `"timestamp":1704888000000`}
+				`"ddtags":` + jsonBytes(strings.Join(ps, ",")), `"message":"m"`, `"timestamp":1704888000000`}
 			if shuffle {
 				ms = shuffledS(r, ms)
 			}
 			return pbody{unmarshal.UnmarshallDatadogV2JSONV2, bg, []byte("[" + obj(ms) + "]")}
 		}
-		bodies = []pbody{mk(tags, false), mk(shuffled2(r, tags), true), mk(shuffled2(r, tags), true)}
+		bodies = []pbody{mk(pieces, false), mk(shuffledS(r, pieces), true), mk(shuffledS(r, pieces), true)}
 	case 1:
 		c.Class = "datadog_cf"
 		f := make([]string, 8)
@@ -306,33 +442,23 @@ func genProto(r *rand.Rand, id int) (PCase, []pbody) {
 		bodies = []pbody{mk(ms), mk(shuffled2(r, ms)), mk(shuffled2(r, ms))}
 	case 5:
 		c.Class = "otlp_logs"
-		gen := func(n int, off int) [][2]string {
-			var l [][2]string
+		gen := func(n int, off int) []WAttr {
+			var l []WAttr
 			for i := 0; i < n; i++ {
-				v := genField(r)
-				if !utf8.ValidString(v) {
-					v = "v"
-				}
-				switch r.Intn(6) {
-				case 0:
-					v = "\x00b:" + []string{"true", "false"}[r.Intn(2)]
-				case 1:
-					v = "\x00i:" + []string{"0", "7", "-12", "9223372036854775807", "-9223372036854775808", "1000000"}[r.Intn(6)]
-				}
-				l = append(l, [2]string{genAttrKey(r, off+i%2), v})
+				l = append(l, WAttr{K: hexs(genAttrKey(r, off+i%2)), V: genVal(r, 2)})
 			}
 			return l
 		}
 		res, scope, rec := gen(r.Intn(3), 0), gen(r.Intn(2), 1), gen(r.Intn(3), 0)
 		// attributes that override each other: a record / scope attribute with the key of a resource attribute
 		if len(res) > 0 && r.Intn(2) == 0 {
-			rec = append(rec, [2]string{res[r.Intn(len(res))][0], "rec-wins"})
+			rec = append(rec, WAttr{K: res[r.Intn(len(res))].K, V: WVal{T: "s", S: hexs("rec-wins")}})
 		}
 		if len(res) > 0 && r.Intn(3) == 0 {
-			scope = append(scope, [2]string{res[r.Intn(len(res))][0], "scope-wins"})
+			scope = append(scope, WAttr{K: res[r.Intn(len(res))].K, V: WVal{T: "s", S: hexs("scope-wins")}})
 		}
 		sev := []string{"", "WARN", "info"}[r.Intn(3)]
-		c.Wire = Wire{Kind: "otlp", Res: hexPairs2(res), Scope: hexPairs2(scope), Rec: hexPairs2(rec), Sev: hexs(sev)}
+		c.Wire = Wire{Kind: "otlp", Res: res, Scope: scope, Rec: rec, Sev: hexs(sev)}
 		mk := func() pbody {
 			ld := &otlpLogs.LogsData{ResourceLogs: []*otlpLogs.ResourceLogs{{
 				Resource: &otlpResource.Resource{Attributes: kvAttrs(res)},
@@ -360,7 +486,13 @@ func genProto(r *rand.Rand, id int) (PCase, []pbody) {
 			ls = append(ls, [2]string{[]string{"app", "env", "dc"}[i], genField(r) + "v"})
 		}
 		ttl := []string{"5", "30", "x", ""}[r.Intn(4)]
-		ls = append(ls, [2]string{"__ttl_days__", ttl})
+		if r.Intn(3) != 0 {
+			ls = append(ls, [2]string{"__ttl_days__", ttl})
+		} else {
+			// no control label: the header must not change the fingerprint
+			c.Class = "loki_ttl_header_only"
+			ls = append(ls, [2]string{[]string{"ttl_days", "__ttl_days", "x__ttl_days__"}[r.Intn(3)], ttl})
+		}
 		ls = shuffled2(r, ls)
 		c.Wire = Wire{Kind: "loki_ttl", Tags: hexPairs2(ls)}
 		mk := func(l [][2]string) []byte {
@@ -444,8 +576,8 @@ func observeProto(c *PCase, bodies []pbody) {
 			docs = append(docs, dh)
 		}
 		// oracle tables from the stored documents' members
-		var pairs [][2]string
-		for _, dc := range docs {
+		pairsOf := func(dc string) [][2]string {
+			var out [][2]string
 			dec := json.NewDecoder(strings.NewReader(dc))
 			if tok, err := dec.Token(); err == nil && tok == json.Delim('{') {
 				for dec.More() {
@@ -456,7 +588,48 @@ func observeProto(c *PCase, bodies []pbody) {
 					if e1 != nil || e2 != nil || !ok1 || !ok2 {
 						break
 					}
-					pairs = append(pairs, [2]string{ks, vs})
+					out = append(out, [2]string{ks, vs})
+				}
+			}
+			return out
+		}
+		var pairs [][2]string
+		for _, dc := range docs {
+			pairs = append(pairs, pairsOf(dc)...)
+		}
+		if m, err := rservice.VerifC15StoredLabels(doc); err != nil {
+			c.RdErr = err.Error()
+		} else {
+			c.Rd = [][2]string{}
+			for k, v := range m {
+				c.Rd = append(c.Rd, [2]string{hx.Hex(k), hx.Hex(v)})
+			}
+			sort.Slice(c.Rd, func(i, j int) bool { return c.Rd[i][0] < c.Rd[j][0] })
+		}
+		// the label list the decoder stored, pushed as a Loki stream: the same label set through another protocol
+		if own := pairsOf(doc); len(own) > 0 && c.hdr == nil {
+			names := map[string]bool{}
+			dup := false
+			var m []string
+			var raw [][]string
+			for _, kv := range own {
+				dup = dup || names[kv[0]]
+				names[kv[0]] = true
+				m = append(m, jsonStr(kv[0])+":"+jsonStr(kv[1]))
+				raw = append(raw, []string{kv[0], kv[1]})
+			}
+			if !dup {
+				body := []byte(`{"streams":[{"stream":{` + strings.Join(m, ",") + `},"values":[["1704888000000000000","x"]]}]}`)
+				fl, dl, err := runP(pbody{unmarshal.DecodePushRequestStringV2, context.Background(), body})
+				if err != nil {
+					c.Err = "the stored labels through Loki: " + err.Error()
+					return
+				}
+				c.HasLoki = true
+				c.FpLoki = strconv.FormatUint(fl, 10)
+				pairs = append(pairs, pairsOf(dl)...)
+				for _, kv := range unmarshal.VerifC04SanitizeLabels(raw) {
+					pairs = append(pairs, [2]string{kv[0], kv[1]})
 				}
 			}
 		}
